@@ -70,6 +70,15 @@ def gen(seed, tier="quick"):
         # per-attempt timeout that never fires: sync = the real worker-thread path of
         # _call_with_timeout (the operation returns at once in real time), async = asyncio.wait_for on the SimLoop
         scn["cfg"]["attempt_timeout_us"] = 3_600_000_000
+    if scn["entry"] != "Policy.noretry" and r.random() < 0.12:
+        # an on_attempt_end observer that cannot cope with the context of an interrupted (ABORTED) attempt and raises
+        # on it: irrelevant to interruptions, which by the statement pass through "at once" -- only the
+        # cancellation-type fault runs (c, d) are made for these base scenarios
+        if scn["place"].get("att_hooks", "none") == "none":
+            scn["place"]["att_hooks"] = r.choice(["policy", "call", "both"])
+        scn["calls"][0].setdefault("faults", []).append({"site": "attempt_end", "at": "aborted", "exc": r.choice(["RuntimeError", "ValueError", "KeyError"]),
+                                                         "kind": "callback_raise"})
+        scn["strict_hook"] = True
     return scn
 
 
@@ -157,8 +166,10 @@ def execute(scn):
     cf0 = calls0.get(0)
     if cf0 is None:
         return {"violations": [], "shape": None, "nontrivial": False, "runs": 1, "sim_us": sim_us, "faults": {}, "probes": {}}
+    strict_hook = bool(scn.get("strict_hook"))
     check_polls(scn, cf0, viol, ent, "reference")
-    check_abort(scn, cf0, viol, ent, "reference")
+    if not strict_hook:
+        check_abort(scn, cf0, viol, ent, "reference")
     n_polls = len(cf0.all("POLL"))
     n_att = len(cf0.attempts)
     n_sleeps = len(cf0.all("SLEEP_BEGIN"))
@@ -181,7 +192,7 @@ def execute(scn):
 
     probes = {}
     # (a) abort at every poll index
-    if has_abort:
+    if has_abort and not strict_hook:
         for p in range(0, min(n_polls, 40) + 1):
             cf, env = variant(lambda v, p=p: v["calls"][0].__setitem__("abort_at", p), f"abort_at_poll={p}")
             tag = f"abort_at_poll={p}"
@@ -191,7 +202,7 @@ def execute(scn):
                 viol.append(V("H1", "abort poll plan did not fire", {"p": p, "entry": ent}))
             probes["abort_poll_runs"] = probes.get("abort_poll_runs", 0) + 1
     # (b) AbortRetryError from attempt n
-    for n in range(1, n_att + 1):
+    for n in range(1, (0 if strict_hook else n_att) + 1):
         def mut(v, n=n):
             a = v["calls"][0]["attempts"]
             while len(a) < n:
